@@ -46,6 +46,11 @@ type VerifC20Case struct {
 	Sid     *string      `json:"sid"`     // operator-assigned content of the store's DATAHUB_BACKUPID; null = let Store.Open generate it
 	Foreign bool         `json:"foreign"` // the backup location is pre-filled: id file (LocID0), somebody's backup file and cursor file
 	LocID0  string       `json:"locid0"`
+	// configuration dimension BACKUP_SOURCE_LOCATION (only meant for the rsync mode): "" = unset, "same" = the store
+	// location spelled out, "empty" = an empty directory, "other" = another (old) store's directory whose
+	// DATAHUB_BACKUPID holds BslID - e.g. the store the pre-filled location belongs to
+	Bsl   string `json:"bsl"`
+	BslID string `json:"bslid"`
 	Rsync   bool         `json:"rsync"`   // BackupRsync mode (restore = open the rsync'ed directory)
 }
 
@@ -93,7 +98,7 @@ type verifC20Hub struct {
 var verifC20CronOnce sync.Once
 var verifC20CronMu sync.Mutex
 
-func verifC20Open(dir, bdir string, rsync bool) (h *verifC20Hub, err error) {
+func verifC20Open(dir, bdir string, rsync bool, bsl string) (h *verifC20Hub, err error) {
 	hk := &verifC20Hook{}
 	defer func() {
 		if r := recover(); r != nil {
@@ -121,6 +126,7 @@ func verifC20Open(dir, bdir string, rsync bool) (h *verifC20Hub, err error) {
 	cfg := &conf.Config{
 		Logger: logger.Sugar(), StoreLocation: dir,
 		BackupLocation: bdir, BackupSchedule: "0 0 1 1 *", BackupRsync: rsync,
+		BackupSourceLocation: bsl, // "" = the default (NewBackupManager falls back to the store location)
 		// configuration knobs only (store.go Open): keep the mmap'ed value log and the block cache small
 		ValueLogFileSize: 4 << 20, BlockCacheSize: 8 << 20,
 	}
@@ -558,12 +564,24 @@ func VerifC20Run(c VerifC20Case, dir string) (obs VerifC20Obs) {
 		_ = os.WriteFile(filepath.Join(bdir, "datahub-backup.kv"), []byte("somebody else's backup"), 0o644)
 		_ = os.WriteFile(filepath.Join(bdir, "datahub-backup.lastseen"), []byte{9, 0, 0, 0, 0, 0, 0, 0}, 0o644)
 	}
+	bsl := ""
+	switch c.Bsl {
+	case "same":
+		bsl = src
+	case "empty":
+		bsl = filepath.Join(dir, "emptydir")
+		_ = os.MkdirAll(bsl, 0o755)
+	case "other":
+		bsl = filepath.Join(dir, "oldstore")
+		_ = os.MkdirAll(bsl, 0o755)
+		_ = os.WriteFile(filepath.Join(bsl, StorageIDFileName), []byte(c.BslID), 0o644)
+	}
 	if c.Sid != nil {
 		// Store.Open only generates the id file when it is missing and nothing else interprets its content
 		_ = os.WriteFile(filepath.Join(src, StorageIDFileName), []byte(*c.Sid), 0o644)
 	}
 	var err error
-	h, err = verifC20Open(src, bdir, c.Rsync)
+	h, err = verifC20Open(src, bdir, c.Rsync, bsl)
 	if err != nil {
 		obs.Outcome = "setup-error"
 		obs.Detail = err.Error()
@@ -623,7 +641,7 @@ func VerifC20Run(c VerifC20Case, dir string) (obs VerifC20Obs) {
 			_ = running
 			h.store.Close()
 			h = nil
-			h, err = verifC20Open(src, bdir, c.Rsync)
+			h, err = verifC20Open(src, bdir, c.Rsync, bsl)
 			if err != nil {
 				obs.Outcome = "setup-error"
 				obs.Detail = "reopen: " + err.Error()
@@ -741,7 +759,7 @@ func VerifC20Run(c VerifC20Case, dir string) (obs VerifC20Obs) {
 			return
 		}
 	}
-	rh, err := verifC20Open(rdir, "", false)
+	rh, err := verifC20Open(rdir, "", false, "")
 	if err != nil {
 		obs.Detail = "restored hub: " + err.Error()
 		return
